@@ -112,6 +112,10 @@ func esclatCmd(args []string) int {
 			if lb && !ab.Matches(a.g) {
 				bad("absorption: h <= g but g⊔h != g for g = [%s], h = [%s]", a.path, b.path)
 			}
+			// the equality used by every fixpoint test of the analysis (Matches) must be the equality of the ordering
+			if m := a.g.Matches(b.g); m != (la && lb) {
+				bad("equality: Matches(g,h) = %v but g<=h = %v and h<=g = %v for g = [%s] (%s), h = [%s] (%s)", m, la, lb, a.path, escape.VerifCanon(a.g), b.path, escape.VerifCanon(b.g))
+			}
 			if !la && !lb {
 				rec.Incomp++
 			}
